@@ -29,9 +29,16 @@ def run(ctx):
     from rules import transport as T, timing as TM
     ctx.rule("R-FINISH-NOW", "an acknowledged J1939-21 send session is released at once (the next multi-packet DM16 is not refused)", floor=2)
     TM.finish_now(ctx, T.Layer(ctx, fd=False))
+    from rules import session as _S
+    ctx.rule("R-REPLY-ARMS", "the J1939-21 end-of-message acknowledge is reported to the originator's listeners (the DM14 server completes a multi-packet read on it)", floor=2)
+    _S.reply_arms(ctx, T.Layer(ctx, fd=False))
     ctx.rule("R-EOM-COMPLETE", "multi-packet read: every legal end-of-message acknowledge (8..255 data bytes) completes the transaction", floor=1)
     D.eom_complete(ctx)
     ctx.assume("DM14 fields are passed in range: object count 0..255, pointer < 2^32, key/user level < 2^16, direct in {0,1}")
     ctx.rule("R-SETTLE-FIRST", "the handler of an expected reply finds the transaction state already stored (client and server; slow driver write or pre-empted sender)", floor=4)
     D.settle_first(ctx)
+    from rules import generic as GN
+    ctx.rule("R-LOCAL-DEFINED", "no path of a DM14 client / server / facade function reads a local before assigning it", floor=30)
+    GN.local_defined(ctx, [f for f in ctx.prog.funcs.values() if f.cls is not None and f.cls.name in ("Dm14Query", "DM14Server", "MemoryAccess")],
+                     why=" - the operation ends with an exception instead of its result")
     return "DM14/DM15/DM16 layouts by sibling composition, size thresholds, chunk slicing, told arguments and idle reset"
